@@ -10,7 +10,8 @@ FIX_COMMITS = ["d6ae502 (passive start-up cancellation: port/listener leak)",
                "826c080 (Windows-flavour base path escape via backslash segments)",
                "b5dacba (STOR/APPE on the virtual root probed the parent of the base directory)",
                "1ca8d1a (double quotes in directory names mangled by PWD / its parser)",
-               "4e53b5c (Client.upload ignored leading destination components for directories)"]
+               "4e53b5c (Client.upload ignored leading destination components for directories)",
+               "9d69568 (Client.list KeyError on an MLSD entry without a type fact)"]
 
 ENV_NOTE = ("Trusted base: the environment model (vf/simloop.py: selector, TCP, clock, executor) and the harness-side "
             "oracles; the code explored is the unmodified aioftp imported from /repo/src. Bounds are stated in the "
@@ -177,6 +178,17 @@ CHECKS = [
              "no dependence on the data volume when only the opposite direction is limited.",
      "design_ref": "DESIGN.md §5 C15", "note": ENV_NOTE,
      "technique": "bounded-exhaustive enumeration of operation sequences in virtual time against an arithmetic reference model"},
+    {"property_id": "C19", "level": "model_checking",
+     "text": "Client parsers: every single mutation (delete 1..6, insert/replace with 17 bytes, truncate, swap/duplicate "
+             "token) and windowed pairs of 8 unix, 3 windows, 4 MLSx lines and 11 PASV/EPSV/257 payloads: well-typed "
+             "result or ValueError (an ordinary Exception for the payload parsers). Client end-to-end: the real client "
+             "against a scripted raw server sending mutated greetings/replies/passive answers and listings (incl. '.' "
+             "and '..', recursive): must return or raise, never hang (the server hangs up when silent) or loop, and never "
+             "drop a listing line. Server: one hostile line per execution (all 256 single bytes, invalid UTF-8, lone CR/"
+             "LF, lengths 2^16-2..2^16+2 and 2^17, EOF after every prefix of every verb, mutated arguments) next to a "
+             "healthy session whose transcript must equal its solo run; then fresh login, ledger, server.close().",
+     "design_ref": "DESIGN.md §5 C19", "note": ENV_NOTE,
+     "technique": "bounded-exhaustive mutation-neighbourhood enumeration through the real parsers, client and server"},
 ]
 
 _ALL = [f"C{i:02d}" for i in range(1, 21)]
